@@ -5,6 +5,10 @@ import Abyss.Props.C03Db
 import Abyss.Props.RaBufP
 import Abyss.Props.RaBufMap
 import Abyss.Props.C03Rb
+import Abyss.Props.C03Gen
+#print axioms Abyss.RaBuf.C03_generated_flush
+#print axioms Abyss.RaBuf.mapFlush_eq_MapRb_flushLike
+#print axioms Abyss.dirty_flag_pins
 #print axioms Abyss.C03_snapshot_opens_rb
 #print axioms Abyss.RaBuf.C03_map_durable
 #print axioms Abyss.RaBuf.C03_chunk_durable
